@@ -195,6 +195,20 @@ def strata(tier):
             for via in ("dsl", "spec"):
                 for j in range(k):
                     yield make_case(G.rng_for("C17-strata", pos, pcls, via, j), tier, pos, pcls, via)
+    # casts: the path argument points at a node that the rule's own cast replaces (resolution is against the cast copy)
+    for j, (doc, rpath, arg) in enumerate([
+        ({"a": "3", "b": "3", "c": "x"}, [{"p": "map"}], [{"p": "prim", "v": "a"}]),
+        ({"l": ["7", "7", "8"], "k": 1}, [{"p": "prim", "v": "l"}, {"p": "list"}], [{"p": "prim", "v": "l"}, {"p": "prim", "v": 0}]),
+        ({"m": {"p": "true", "q": "TRUE", "r": "no"}}, [{"p": "prim", "v": "m"}, {"p": "mol"}], [{"p": "prim", "v": "m"}, {"p": "prim", "v": "p"}]),
+        ({"a": "12", "b": {"c": "12"}}, [{"p": "prim", "v": "a"}], [{"p": "prim", "v": "a"}]),
+    ]):
+        for cast in ([["str", "int"]], [["str", "bool"]]):
+            for fn in ("equal_to", "not_equal_to", "in_"):
+                P = {"$path": PC.mkpath(arg)}
+                cond = PC.L("value", fn, [P, 0] if fn == "in_" else P)
+                for via in ("dsl", "spec"):
+                    yield {"rule": {"path": PC.mkpath(rpath), "cond": cond, "cast": cast}, "doc": doc, "via": via,
+                           "pos": "list-item" if fn == "in_" else "positional", "pcls": "concrete"}
     # escaped literal mappings
     for j, lit in enumerate([{"path": ["a"]}, {"path": 3}, {"path.length": ["a"]}, {"path": ["a"], "b": 1}, {"Path": ["a"]},
                              {"PATH.First": 1}, {"pAtH.length": ["a"]}, {"path.map_keys": 1}, {"path.first.map_values": ["a_b"]}]):
